@@ -333,6 +333,13 @@ def _compose_job() -> Record:
         def thunk() -> Any:
             comp = it.call(lookup_fn(it, qual), [seq], {})
             out = it.call(comp, [gm0, ex], {})
+            n_first = len(log)
+            # TorchDynamo calls the composite backend again on every re-compilation (new input
+            # shapes, grad mode, after a reset): it must apply all backends every time
+            out2 = it.call(comp, [gm0, ex], {})
+            state["second"] = (len(log) - n_first, out2)
+            del log[n_first:]
+            seq.entered = 1 if seq.entered >= 1 else 0
             return out, log, prev, gm0, ex, state, seq
 
         return it, thunk
@@ -346,6 +353,8 @@ def _compose_job() -> Record:
         ctx.oblige(f"{tag}:initiation_loop_starts_from_the_captured_graph", state["init"] is gm0)
         ctx.oblige(f"{tag}:each_backend_applied_exactly_once_to_the_result_of_the_earlier_ones", len(log) == 1 and log[0][1] is prev and log[0][2] is ex and seq.entered == 1)
         ctx.oblige(f"{tag}:use_returns_the_last_result", len(log) == 1 and out is log[0][3])
+        n2, out2 = state.get("second", (0, None))
+        ctx.oblige(f"{tag}:a_second_invocation(recompilation)_applies_the_backends_again", n2 == 1 and out2 is not gm0, applied=n2)
         ctx.oblige(f"{tag}:parameter_sources_carried_along", getattr(out, "attrs", {}).get("_param_name_to_source") is prev.attrs["_param_name_to_source"])
         return None
 
